@@ -358,7 +358,11 @@ func (w *World) exec(q Query, rc *ReuseCtx) string {
 	if len(q) < 2 {
 		return "bad-query"
 	}
-	rs, e := w.segOf(q[1])
+	first := q[1]
+	if i := strings.Index(first, ","); i >= 0 {
+		first = first[:i]
+	}
+	rs, e := w.segOf(first)
 	if rs == nil {
 		return e
 	}
@@ -487,7 +491,8 @@ func (w *World) exec(q Query, rc *ReuseCtx) string {
 			case op == "n":
 				p, err := it.Next()
 				if err != nil {
-					return strings.Join(append(out, "err"), " ")
+					out = append(out, "err") // keep going: what do later calls on this iterator say?
+					continue
 				}
 				out = append(out, fmtPosting(p, f, n, l))
 			case op == "w":
@@ -508,7 +513,8 @@ func (w *World) exec(q Query, rc *ReuseCtx) string {
 				t, _ := strconv.ParseUint(op[1:], 10, 64)
 				p, err := it.Advance(t)
 				if err != nil {
-					return strings.Join(append(out, "err"), " ")
+					out = append(out, "err")
+					continue
 				}
 				out = append(out, fmtPosting(p, f, n, l))
 			default:
@@ -614,6 +620,39 @@ func (w *World) exec(q Query, rc *ReuseCtx) string {
 			return "err"
 		}
 		return fmt.Sprintf("%d %d %d", st.TotalDocumentCount(), st.DocumentCount(), st.SumTotalTermFrequency())
+	case "statsmerge":
+		// q statsmerge <segs comma-separated> <field>: the first segment's statistics object is the
+		// accumulator, the others are merged into it (the usual aggregation); then the field is
+		// queried once more on every segment to see that nothing was disturbed
+		field, _ := unhx(q[2])
+		var acc segment.CollectionStats
+		var parts []string
+		idxs := strings.Split(q[1], ",")
+		for _, ix := range idxs {
+			r2, e2 := w.segOf(ix)
+			if r2 == nil {
+				return e2
+			}
+			st, err := r2.obs.CollectionStats(string(field))
+			if err != nil {
+				return "err"
+			}
+			if acc == nil {
+				acc = st
+			} else {
+				acc.Merge(st)
+			}
+		}
+		parts = append(parts, fmt.Sprintf("%d %d %d", acc.TotalDocumentCount(), acc.DocumentCount(), acc.SumTotalTermFrequency()))
+		for _, ix := range idxs {
+			r2, _ := w.segOf(ix)
+			st, err := r2.obs.CollectionStats(string(field))
+			if err != nil {
+				return "err"
+			}
+			parts = append(parts, fmt.Sprintf("%d %d %d", st.TotalDocumentCount(), st.DocumentCount(), st.SumTotalTermFrequency()))
+		}
+		return strings.Join(parts, " | ")
 	case "match":
 		var terms []segment.Term
 		for _, p := range q[2:] {
